@@ -45,4 +45,26 @@ def npDot (a b : List Q) : Q := sumQ (List.zipWith (fun x y => x * y) a b)
 /-- `np.sum(a)` -/
 def npSum (xs : List Q) : Q := sumQ xs
 
+/-- `a + b`, element by element -/
+def npAdd (a b : List Q) : List Q := List.zipWith (fun x y => x + y) a b
+/-- `a + s` / `a += s` with a scalar -/
+def npAddScalar (xs : List Q) (c : Q) : List Q := xs.map (fun x => x + c)
+/-- `table[idx]` with integer indices: a negative index counts from the end of the table, as in NumPy -/
+def npGatherInt (tbl : List Q) (idx : List Int) : List Q :=
+  idx.map (fun i => if 0 ≤ i then tbl.getD i.toNat 0 else tbl.getD (tbl.length - i.natAbs) 0)
+/-- `s[mask] += v` -/
+def npAddMask : List Q → List Bool → List Q → List Q
+  | [], _, _ => []
+  | s :: ss, [], _ => s :: ss
+  | s :: ss, false :: m, vs => s :: npAddMask ss m vs
+  | s :: ss, true :: m, [] => s :: npAddMask ss m []
+  | s :: ss, true :: m, v :: vs => (s + v) :: npAddMask ss m vs
+/-- `s[mask] -= v` -/
+def npSubMask : List Q → List Bool → List Q → List Q
+  | [], _, _ => []
+  | s :: ss, [], _ => s :: ss
+  | s :: ss, false :: m, vs => s :: npSubMask ss m vs
+  | s :: ss, true :: m, [] => s :: npSubMask ss m []
+  | s :: ss, true :: m, v :: vs => (s - v) :: npSubMask ss m vs
+
 end LK.NpOps
